@@ -141,6 +141,14 @@ def main():
         for inc in r["inconclusive"]:
             inconclusive.append(f"{st}: {inc.get('reason')} case={core.jdump(inc.get('case'))[:200]}")
 
+    # cross-shard verdicts (e.g. the same batch executed under different hash seeds)
+    if hasattr(mod, "finalize"):
+        extra_failures, extra_counts = mod.finalize(results)
+        failures.extend(extra_failures)
+        counters.update(extra_counts)
+        for f in extra_failures:
+            failure_kinds[f["diag"].get("kind", "?")] += 1
+
     # minimum-observation rule: the deciding monitors must actually have been reached
     for key, minimum in getattr(mod, "MINIMUMS", {}).get(args.tier, {}).items():
         if counters.get(key, 0) < minimum:
